@@ -21,13 +21,19 @@ def gen(rng, max_n=7):
     for i in range(n):
         preds = [j for j in range(i) if rng.random() < 0.4]
         flag = rng.randrange(i) if (i > 0 and rng.random() < 0.25) else None
+        # the flag may be an indexed part of its producer's value (truthiness of a part differs from the whole's)
+        flagidx = None
+        if flag is not None and specs[flag]["ret"] == "t" and specs[flag]["flag"] is None and rng.random() < 0.5:
+            fs = specs[flag]
+            npos = sum(1 for j in fs["preds"] if not use_of(fs, j)["kw"]) + int(fs["const"]) + 2 * int(fs["usearg"])
+            flagidx = rng.choice([0, 1, 1]) if npos >= 1 else 0    # element 0 is the node's name, 1 its first argument
         # how each predecessor is used: plain / indexed ([0]) and positional / by keyword
         uses = {}
         for k_, j in enumerate(preds):
             indexable = specs[j]["ret"] == "t" and specs[j]["flag"] is None
             uses[str(j)] = dict(idx0=indexable and rng.random() < 0.35, kw=("k%d" % k_) if rng.random() < 0.35 else None)
         is_setup = (not preds) and flag is None and rng.random() < 0.3
-        specs.append(dict(preds=preds, uses=uses, flag=flag, usearg=(not is_setup) and rng.random() < 0.3,
+        specs.append(dict(preds=preds, uses=uses, flag=flag, flagidx=flagidx, usearg=(not is_setup) and rng.random() < 0.3,
                           const=rng.random() < 0.2, ret="t" if is_setup else ("z" if rng.random() < 0.15 else "t"),
                           tag=None, setup=is_setup))
     if rng.random() < 0.3 and n >= 2:
@@ -80,7 +86,8 @@ def build(sc):
             if s["usearg"]:
                 args += [x, y]
             if s["flag"] is not None:
-                kw["twz_active"] = vals[s["flag"]]
+                fv = vals[s["flag"]]
+                kw["twz_active"] = fv if s.get("flagidx") is None else fv[s["flagidx"]]
             vals.append(nodes[i](*args, **kw))
         return tuple(vals)
 
@@ -96,7 +103,9 @@ def header(tid, sc):
             u = use_of(s, j)
             toks.append(("%s:" % u["kw"] if u["kw"] else "") + str(j) + ("/0" if u["idx0"] else ""))
         out.append("N %s %d %d %s %s" % (s["ret"], int(s["usearg"]), int(s["const"]),
-                                        "-" if s["flag"] is None else s["flag"], " ".join(toks)))
+                                        "-" if s["flag"] is None else
+                                        (str(s["flag"]) + ("" if s.get("flagidx") is None else "/%d" % s["flagidx"])),
+                                        " ".join(toks)))
     return out
 
 
@@ -134,7 +143,11 @@ def oracle(sc, outs, ins, vals):
             return memo[i]
         s = sc["specs"][i]
         raw = {j: val(j) for j in s["preds"]}        # the composed DAG contains every dependency ...
-        act = True if s["flag"] is None else bool(val(s["flag"]))   # ... including the flag's producer
+        if s["flag"] is None:
+            act = True
+        else:
+            fv = val(s["flag"])                          # ... including the flag's producer
+            act = bool(fv if s.get("flagidx") is None else fv[s["flagidx"]])
         args, kws = [], []
         if act:
             for j in s["preds"]:
@@ -158,7 +171,7 @@ def oracle(sc, outs, ins, vals):
         return ("OK", [val(o) for o in outs])
     except KeyError:
         return ("VALUEERROR", "missing-input")
-    except (TypeError, IndexError):
+    except (TypeError, IndexError, KeyError):
         return ("RAISES", "indexing a value that cannot be indexed")
 
 
